@@ -657,9 +657,11 @@ def rule_chain(c: Ctx) -> RuleResult:
             else:
                 r.add(key, where, "Ruler.__compile__", desc, "discharged",
                       f"loop-body simulation: {'appended' if got else 'skipped'} as required")
-    # comprehension form of the fill
+    # comprehension form of the fill (in __compile__ itself or in a private helper of Ruler it calls)
+    helpers = [f] + [g for cs in c.cg.sites.get(f, []) for g in cs.callees if g.cls == f.cls and g is not f]
     if found == 0:
-        for n in own_nodes(f.node):
+      for hf in helpers:
+        for n in own_nodes(hf.node):
             if isinstance(n, (ast.ListComp,)) and isinstance(n.elt, ast.Attribute) and n.elt.attr == "fn" and len(n.generators) == 1:
                 g = n.generators[0]
                 if not (isinstance(g.target, ast.Name) and isinstance(n.elt.value, ast.Name) and n.elt.value.id == g.target.id):
@@ -667,8 +669,14 @@ def rule_chain(c: Ctx) -> RuleResult:
                 found += 1
                 rulevar = g.target.id
                 chainvar = None
+                if hf is not f:
+                    # the helper's parameter that names the chain: the one compared with <rule>.alt
+                    hp = [a.arg for a in hf.node.args.args[1:]]
+                    for x in ast.walk(n):
+                        if isinstance(x, ast.Compare) and isinstance(x.left, ast.Name) and x.left.id in hp:
+                            chainvar = x.left.id
                 par = f.module.parents.get(n)
-                while par is not None and par is not f.node:
+                while par is not None and par is not hf.node and chainvar is None:
                     if isinstance(par, (ast.For,)) and isinstance(par.target, ast.Name):
                         chainvar = par.target.id
                         break
@@ -694,32 +702,37 @@ def rule_chain(c: Ctx) -> RuleResult:
     if found == 0:
         raise AnchorError("Ruler.__compile__: no loop appending <rule>.fn found")
     # chain-name collection: alt names of enabled rules reach the set of chains
-    alt_loops = [n for n in own_nodes(f.node) if isinstance(n, (ast.For, ast.comprehension)) and isinstance(n.iter, ast.Attribute)
-                 and n.iter.attr == "alt"]
     ok_alt = False
-    for al in alt_loops:
-        outer = f.module.parents.get(al)
-        while outer is not None and not (isinstance(outer, (ast.For, ast.comprehension)) and _is_self_attr(outer.iter, RULES_ATTR)):
-            if outer is f.node:
-                outer = None
-                break
-            outer = f.module.parents.get(outer)
-        if outer is None and isinstance(al, ast.comprehension):
-            # generators of one comprehension:  {name for rule in self.__rules__ if rule.enabled for name in rule.alt}
-            comp = f.module.parents.get(al)
-            gens = getattr(comp, "generators", [])
-            if any(_is_self_attr(g.iter, RULES_ATTR) for g in gens):
-                ok_alt = True
-            continue
-        if outer is not None:
-            if isinstance(outer, ast.For) and isinstance(al, ast.For):
-                head = next((n for n in cfg.nodes if n.kind == "for" and n.ast is outer), None)
-                if head is not None and isinstance(outer.target, ast.Name):
-                    got = _simulate_loop(cfg, head, lambda a: a is al, {"E": True, "C": True, "M": True}, outer.target.id, None)
-                    if got:
+    for hf in helpers:
+        hcfg = c.cfg(hf)
+        for x in own_nodes(hf.node):
+            if not (isinstance(x, ast.Attribute) and x.attr == "alt" and isinstance(x.value, ast.Name)):
+                continue
+            rv = x.value.id
+            # the enclosing loop / comprehension over the rule list that binds rv
+            p_ = hf.module.parents.get(x)
+            stmt = None
+            while p_ is not None and p_ is not hf.node:
+                if isinstance(p_, ast.stmt) and stmt is None:
+                    stmt = p_
+                if isinstance(p_, ast.For) and isinstance(p_.target, ast.Name) and p_.target.id == rv and _is_self_attr(p_.iter, RULES_ATTR):
+                    # is the statement reading .alt a collection into a set, reached for an enabled rule?
+                    collects = any(isinstance(y, ast.Call) and isinstance(y.func, ast.Attribute) and y.func.attr in ("add", "update") for y in ast.walk(stmt)) \
+                        or isinstance(stmt, ast.AugAssign) or isinstance(stmt, ast.For)
+                    head = next((n for n in hcfg.nodes if n.kind == "for" and n.ast is p_), None)
+                    if collects and head is not None:
+                        tgt = stmt
+                        got = _simulate_loop(hcfg, head, lambda a, tgt=tgt: a is tgt or (isinstance(tgt, ast.For) and a is tgt), {"E": True, "C": True, "M": True}, rv, None)
+                        got_off = _simulate_loop(hcfg, head, lambda a, tgt=tgt: a is tgt, {"E": False, "C": True, "M": True}, rv, None)
+                        if got:
+                            ok_alt = True
+                    break
+                if isinstance(p_, (ast.SetComp, ast.ListComp, ast.GeneratorExp, ast.DictComp)):
+                    gens = p_.generators
+                    if any(isinstance(g.target, ast.Name) and g.target.id == rv and _is_self_attr(g.iter, RULES_ATTR) for g in gens):
                         ok_alt = True
-            else:
-                ok_alt = True
+                        break
+                p_ = hf.module.parents.get(p_)
     r.add("__compile__|chain-names", "markdown_it/ruler.py:%d" % f.node.lineno, "Ruler.__compile__",
           "collect chain names from <rule>.alt of enabled rules", "discharged" if ok_alt else "violation",
           "every enabled rule's alt names are visited when the chain table is keyed" if ok_alt else
